@@ -106,7 +106,7 @@ CHECKS = {
              'expressions are outside the statement.'),
     'C11': dict(
         level='model_checking', design='DESIGN.md §4 C11',
-        technique='exhaustive enumeration of all streams s0 m1 s1 .. mj sj over a 7-message pool and 9 separators (full '
+        technique='exhaustive enumeration of all streams s0 m1 s1 .. mj sj over an 8-message pool and 9 separators (full '
                   'product for j<=1, thorough j<=2; deviation-bounded non-empty separators for j=2..4), each scanned in '
                   'full and metadata-only mode without and with 5 filter expressions; split / count commands in-process',
         text='For every stream of the bounded space the real scanner must yield exactly the messages (satisfying the '
